@@ -279,6 +279,13 @@ where
     pub fn write(&mut self, token: DataToken) -> Result<()> {
         match token {
             DataToken::SequenceStart { tag, len, .. } => {
+                // a data set sequence starts here:
+                // we are no longer in encapsulated pixel data
+                // (its header would otherwise linger
+                // if this sequence comes right after the pixel data,
+                // and the items of this sequence would be taken for fragments)
+                self.last_de = None;
+
                 match self.options.explicit_length_sq_item_strategy {
                     ExplicitLengthSqItemStrategy::SetUndefined => {
                         self.seq_tokens.push(SeqToken {
